@@ -66,6 +66,7 @@ struct Scenario {
    std::string type = "slha";       ///< input-type option used
    SrcKind src = SRC_STDIN;
    std::vector<std::string> pre_args, post_args; ///< extra argv elements before/after the input option
+   bool stdin_is_file = false;      ///< stdin is a regular file (seekable, size known) instead of a pipe
    unsigned max_iter_knob = 0;      ///< iteration budget of the on-shell conversion (0 = shipped value); only ever lowered
    int env_mode = 0;                ///< simulated process environment, see simulated_env()
    int tilde_kind = 0;              ///< SRC_TILDE: which spelling
@@ -413,6 +414,9 @@ inline void apply_op(Scenario& s, const Corpus& corpus, const std::vector<std::s
       if (a == "<empty>") a = "";
       (op == "arg" ? s.post_args : s.pre_args).push_back(a);
       note_fault(s, "extra_argument");
+   } else if (op == "stdinkind") {
+      s.stdin_is_file = t.size() > 1 && t[1] == "file";
+      note_fault(s, s.stdin_is_file ? "stdin_is_regular_file" : "stdin_is_pipe");
    } else if (op == "knob") {
       // knob maxiter N: tuning knob of the program under test set by the simulator through the GM2CALC_VERIF hook in
       // src/gm2calc.cpp.  Only values below the shipped one (1000): the program may only do less work than shipped.
@@ -528,7 +532,7 @@ inline std::vector<std::string> gen_plan(const Corpus& corpus, uint64_t seed, st
       case 11: { static const long lens[] = {64, 200, 255, 256, 300, 512, 1024, 4096, 20000, 65536};
                  return std::string("longarg ") + (r.chance(0.5) ? "pre " : "post ") + std::to_string(r.below(5)) + " " + std::to_string(r.chance(0.6) ? lens[r.below(10)] : (long)(1 + r.below(1200))); }
       case 0: return "src path";
-      case 1: return "src stdin";
+      case 1: return r.chance(0.5) ? "src stdin" : (r.chance(0.5) ? "stdinkind file" : "stdinkind pipe");
       case 2: { static const char* const k[] = {"missing", "dir", "emptyname", "none"}; return std::string("src ") + k[r.below(4)]; }
       case 3: { static const char* const ty[] = {"slha", "gm2calc", "thdm"}; return std::string("type ") + ty[r.below(3)]; }
       case 4: { static const char* const a[] = {"--help", "-h", "--version", "-v", "--foo", "<empty>", "--slha-input-file=", "--thdm-input-file=-", "-", "--gm2calc-input-file=/nonexistent", "--slha-input-file", "\xff\xfe"};
